@@ -278,7 +278,7 @@ func probeGroup(res *e1Result, cases []*e1Case, name string) (failed bool, phase
 	files := scenarioFiles(cases, "")
 	writeScenario(dir, files)
 	defer os.RemoveAll(dir)
-	g := run(dir, 3*time.Minute, nil, buildGoderive(), "./p")
+	g := run(dir, 90*time.Second, nil, buildGoderive(), "./p")
 	res.GenRuns++
 	if g.TimedOut || g.Exit != 0 {
 		return true, "generate", fmt.Sprintf("goderive exit %d\n%s", g.Exit, g.Stderr)
@@ -392,7 +392,7 @@ func runBatchPipeline(b *e1Batch, prop string, env []string, runs int, hooks ...
 			}
 			old["p/types.go"] = olderVersion(files["p/types.go"])
 			writeScenario(dir, old)
-			run(dir, 3*time.Minute, nil, buildGoderive(), "./p")
+			run(dir, 90*time.Second, nil, buildGoderive(), "./p")
 			res.GenRuns++
 			writeFile(filepath.Join(dir, "p/types.go"), files["p/types.go"])
 		} else {
@@ -421,7 +421,7 @@ func runBatchPipeline(b *e1Batch, prop string, env []string, runs int, hooks ...
 				res.Failures = append(res.Failures, e1Failure{Case: group[0], Phase: gphase, Output: gout, Files: gfiles, Together: ids})
 			}
 		}
-		g := run(dir, 3*time.Minute, nil, buildGoderive(), "./p")
+		g := run(dir, 90*time.Second, nil, buildGoderive(), "./p")
 		res.GenRuns++
 		if g.TimedOut {
 			fail("generate", "goderive timed out\n"+g.Stderr)
